@@ -150,6 +150,10 @@ func initConverter(loader *pkgload.PackageLoader, rawConverter *RawConverter) (*
 			return nil, err
 		}
 
+		if named, ok := interfaceObj.Type().(*types.Named); ok && named.TypeParams().Len() > 0 {
+			return nil, fmt.Errorf("%s: the converter interface %s must not have type parameters", c.Location, rawConverter.InterfaceName)
+		}
+
 		c.typ = interfaceObj.Type()
 		c.Name = rawConverter.InterfaceName + "Impl"
 		return c, nil
